@@ -334,10 +334,9 @@ def analyse_ownership(ctx):
             if fname in SKIP_FUNCS:
                 skipped.append((fname, "struct-field only / init"))
                 continue
-            g = get_ccfg(ctx, facts, fname)
-            try:
-                paths = feasible_paths(g, name=fname, max_paths=40000)
-            except AnalysisError:
+            from ..csym import cached_paths
+            paths = cached_paths(ctx, facts, fname)
+            if paths is None:
                 skipped.append((fname, "too many paths"))
                 continue
             params = [p.name for p in facts.params(fname)]
@@ -358,6 +357,8 @@ def analyse_ownership(ctx):
                                                          else 0), msg, p)
             analysed.append((fname, n_paths))
             results[fname] = found
+        from ..csym import flush_paths
+        flush_paths(ctx)
         return facts, results, analysed, skipped
     return ctx.memo("c-ownership", compute)
 
